@@ -707,6 +707,11 @@ def new_acc(nval):
 def run(ctx, model_ok=True):
     quick = ctx.tier == 'quick'
     rng = ctx.rng
+    f0 = pole_tip_problem()
+    ctx.case(key='pole-tip probes', bucket='pole-tip')
+    if f0:
+        ctx.mismatch('vector / ellipse ending exactly on a pole', f0['input'], impl=f0['what'], is_violation=f0)
+    ctx.oblige('oracle: vectors and major axes that end exactly on a celestial pole have finite pixel images (144 probes)', f0 is None, f0 and f0['what'])
     ctx.rule = ('random FITS headers (projections SIN TAN ZEA ARC STG in turn; CRVAL2 in [-85, 85] incl. +-85, CRVAL1 incl. 0 / 359.999 / 0.001; '
                 '1..60 arcsec pixels, 256..1024 pixels a side, off-centre and half-integer CRPIX, 15% flipped handedness, some non-square pixels); '
                 'per header random pixels (incl. corners and centre), sizes 1..20 pixels, axis ratios 0.1..1, angles in (-180, 180] incl. 180, 0, +-90. '
@@ -788,6 +793,28 @@ def run(ctx, model_ok=True):
 
 
 # ------------------------------------------------------------------------------------------
+def pole_tip_problem():
+    """vectors / major axes whose far end is EXACTLY a celestial pole (the arcsin argument of translate rounds to 1 +- 1 ulp)"""
+    for dec0, sgn in ((85.0, 1.0), (-85.0, -1.0)):
+        desc = {'proj': 'SIN', 'crval': [10.0, dec0], 'crpix': [513.0, 513.0], 'cdelt': [-1 / 60.0, 1 / 60.0], 'naxis': 1024,
+                'beam': [0.05, 0.04, 10.0]}
+        h = wh().WCSHelper.from_header(header_of(desc))
+        for ra in (10.0, 0.0, 359.75):
+            for k in range(1, 25):
+                r = k / 60.0
+                pos = (ra, sgn * (90.0 - r))
+                pa = 0.0 if sgn > 0 else 180.0
+                out = [float(v) for v in h.sky2pix_vec(pos, r, pa)]
+                if not all(math.isfinite(v) for v in out):
+                    return {'kind': 'poletip', 'header': desc, 'input': [list(pos), r, pa],
+                            'what': f'sky2pix_vec({pos}, {r!r}, {pa!r}) = {out}: a vector that ends exactly on the pole has no finite pixel image'}
+                oe = [float(v) for v in h.sky2pix_ellipse(pos, r, r / 2, pa)]
+                if not all(math.isfinite(v) for v in oe):
+                    return {'kind': 'poletip', 'header': desc, 'input': [list(pos), r, pa],
+                            'what': f'sky2pix_ellipse({pos}, {r!r}, {r / 2!r}, {pa!r}) = {oe}: major axis ending on the pole is not finite'}
+    return None
+
+
 def problems_on(desc, h, rng):
     """all oracles on one random input of a header; returns a failing-input dict or None"""
     n = desc['naxis']
@@ -818,6 +845,9 @@ def search(ctx):
     rng = ctx.rng
     t0 = time.time()
     k = 0
+    f = pole_tip_problem()
+    if f:
+        return f
     while time.time() - t0 < 60:
         hdr, desc = rand_header(rng, k)
         k += 1
@@ -853,6 +883,9 @@ def replay(ctx, obj):
         msg, _ = ellipse_problem(desc, h, tuple(inp[0]), inp[1], inp[2], inp[3])
     elif kind == 'pixellipse':
         msg = pixellipse_problem(desc, h, tuple(inp[0]), inp[1], inp[2], inp[3])
+    elif kind == 'poletip':
+        f = pole_tip_problem()
+        msg = f['what'] if f else None
     elif kind == 'psf':
         msg = psf_problem(desc, h, [(desc['naxis'] / 3.0, desc['naxis'] / 5.0)])
     else:
